@@ -147,7 +147,11 @@ func gen(kind string) func(t *rapid.T) Case {
 			}
 		}
 		if len(build) > 0 && rapid.IntRange(0, 4).Draw(t, "build-phase") != 0 {
-			c.Build = refl.GenSteps(t, build, 2, 14)
+			chunks := 2
+			if rapid.IntRange(0, 7).Draw(t, "big-build") == 0 {
+				chunks = 9 // dozens to hundreds of elements
+			}
+			c.Build = refl.GenSteps(t, build, chunks, 14)
 		}
 		c.Steps = refl.GenSteps(t, methods, 3, 12)
 		return c
